@@ -14,6 +14,7 @@ import (
 	"runtime/debug"
 	"strings"
 	"sync/atomic"
+	"time"
 )
 
 type core interface {
@@ -74,12 +75,33 @@ func extraCommand(name string, args []string) bool {
 	return ok
 }
 
+// opStarted is the start time of the operation in progress (0: none).  An operation the
+// implementation never finishes (a lost wake-up, a leaked lock) would otherwise hold the
+// stream until the caller's process timeout: the watchdog ends the process instead, and the
+// check reports the early end as a crash at this line with the ops so far as the replay.
+var opStarted int64
+
+func opWatchdog() {
+	limit := 300 * time.Second
+	if v, err := time.ParseDuration(os.Getenv("CORR_OP_TIMEOUT")); err == nil && v > 0 {
+		limit = v
+	}
+	for {
+		time.Sleep(time.Second)
+		if t := atomic.LoadInt64(&opStarted); t != 0 && time.Since(time.Unix(0, t)) > limit {
+			fmt.Fprintf(os.Stderr, "harness: operation did not finish within %v, giving up on this stream\n", limit)
+			os.Exit(4)
+		}
+	}
+}
+
 func runAll() {
 	defer func() {
 		if n := atomic.LoadInt64(&barrierRepeats); n > 0 {
 			fmt.Fprintf(os.Stderr, "harness: %d barrier PINGREQ(s) had to be repeated (no answer within 1.5 s)\n", n)
 		}
 	}()
+	go opWatchdog()
 	live := map[string]core{}
 	in := bufio.NewReaderSize(os.Stdin, 1<<20)
 	out := bufio.NewWriterSize(os.Stdout, 1<<20)
@@ -105,7 +127,9 @@ func runAll() {
 			c = mk()
 			live[ws[0]] = c
 		}
+		atomic.StoreInt64(&opStarted, time.Now().UnixNano())
 		res := safeHandle(c, ws[1:])
+		atomic.StoreInt64(&opStarted, 0)
 		fmt.Fprintln(out, res)
 		out.Flush()
 		// a stream on which the implementation keeps missing its deadlines is cut short: every
